@@ -72,22 +72,24 @@ def shape(target: str) -> Callable:
 
 
 class _UF:
-    def __init__(self, fn: Callable, result: Any, length: Any, name: str):
+    def __init__(self, fn: Callable, result: Any, length: Any, name: str, inverse_of: Any = None):
         self.fn = fn
         self.result = result
         self.length = length
         self.name = name
+        self.inverse_of = inverse_of  # (name of the forward UF, indices of the shared args, index of the payload arg)
         self.__name__ = name
 
     def __call__(self, *a: Any, **k: Any) -> Any:
         return self.fn(*a, **k)
 
 
-def uninterpreted(result: Any = bytes, length: Any = None, name: Optional[str] = None) -> Callable:
-    """Spec-level uninterpreted function.  Symbolically: fresh result + congruence; at run time: fn."""
+def uninterpreted(result: Any = bytes, length: Any = None, name: Optional[str] = None, inverse_of: Any = None) -> Callable:
+    """Spec-level uninterpreted function.  Symbolically: fresh result + congruence; at run time: fn.
+    inverse_of=(F, shared, payload) adds the law  G(shared.., F(shared.., x)) == x  (A-crypto-laws)."""
 
     def deco(fn: Callable) -> _UF:
-        u = _UF(fn, result, length, name or fn.__name__)
+        u = _UF(fn, result, length, name or fn.__name__, inverse_of)
         REGISTRY["ufs"][u.name] = u
         return u
 
